@@ -6,12 +6,12 @@ Import ListNotations.
 Section FlattenProofs.
   Variable tpl : str -> option node.
   Variable is_magic : str -> bool.
-  Variable magic_fn : str -> list str -> str.
+  Variable magic_prog : str -> nat -> mreq.
   Variable default_names : list str.
 
-  Notation flatten := (flatten tpl is_magic magic_fn default_names).
-  Notation expand := (expand tpl is_magic magic_fn default_names).
-  Notation node_body := (node_body tpl is_magic magic_fn default_names).
+  Notation flatten := (flatten tpl is_magic magic_prog default_names).
+  Notation expand := (expand tpl is_magic magic_prog default_names).
+  Notation node_body := (node_body tpl is_magic magic_prog default_names).
 
   (* one unfolding step of the Fixpoint for a non-string node *)
   Lemma flatten_step b c n e :
@@ -125,5 +125,5 @@ Definition ex_tpl (name : str) : option node :=
 Definition ex_page : node := NSeq [NStr [49%N]; NTpl (NStr [97%N]) []; NStr [50%N]; NTpl (NStr [98%N]) []].
 
 Lemma example_cycle :
-  expand ex_tpl (fun _ => false) (fun _ _ => []) [default_key] 100 ex_page = Ok [49; 50]%N.
+  expand ex_tpl (fun _ => false) (fun _ _ => MDone []) [default_key] 100 ex_page = Ok [49; 50]%N.
 Proof. vm_compute. reflexivity. Qed.
